@@ -1,3 +1,4 @@
+import GenlmModel.Proofs.GenLink.Fst
 import Batteries.Tactic.Alias
 import GenlmModel.Proofs.Fst
 import GenlmModel.Proofs.LimFst
@@ -5,6 +6,20 @@ import GenlmModel.Proofs.LimFst
 About the mirror models of `fst.py` (`FST.compose` / `compose'` = the two association branches of
 `__matmul__` through `_augment_epsilon_transitions` and `epsilon_filter_fst`), every commutative semiring. -/
 namespace Genlm.Props.C10
+/-! ## re-checked tie to the source: the definitions REGENERATED from the Python builder functions on every run
+(`Generated/Builders.lean`, by `harness/translate.py`) are the hand-written models the theorems below are about -/
+alias gen_epsilon_filter_fst_eq_model := Genlm.gen_epsilon_filter_fst_eq_model
+alias gen_FST_augment_epsilon_transitions_eq_model := Genlm.gen_FST_augment_epsilon_transitions_eq_model
+alias gen_FST_diag_eq_model := Genlm.gen_FST_diag_eq_model
+alias gen_FST_from_string_eq_model := Genlm.gen_FST_from_string_eq_model
+alias gen_WFSA_from_string_eq_model := Genlm.gen_WFSA_from_string_eq_model
+alias gen_FST_T_eq_model := Genlm.gen_FST_T_eq_model
+alias gen_FST_project_eq_model := Genlm.gen_FST_project_eq_model
+alias gen_FST_from_pairs_eq_model := Genlm.gen_FST_from_pairs_eq_model
+alias gen_epsilon_filter_fst_path_sums := Genlm.gen_epsilon_filter_fst_TPk
+alias gen_FST_augment_epsilon_transitions_path_sums := Genlm.gen_FST_augment_epsilon_transitions_TPk
+alias gen_FST_from_pairs_path_sums := Genlm.gen_FST_from_pairs_TPk
+
 /-- the driver's table is the path-sum specification -/
 alias oracle_is_path_sum := Genlm.TPNtab_spec
 /-- THE composition theorem, graded by how many arcs each operand takes: accepting paths of `T1 @ T2`
